@@ -131,8 +131,15 @@ func newXferWorld(rc *runCtx, o *xferOpts) *xferWorld {
 		l := w.NewLink(name)
 		o.profile.apply(l)
 		l.Record = !o.noRecord
-		// trigger detection works per read by design (C06/C19): a trigger line is never cut
-		l.Atomic = func(data []byte) bool { return bytes.Contains(data, []byte("::TRZSZ:TRANSFER:")) }
+		// trigger detection works per read by design (C06/C19): a trigger line is never cut. With relays
+		// in the path the same holds for the end-of-transfer markers a relay scans each read for.
+		l.Atomic = func(data []byte) bool {
+			if bytes.Contains(data, []byte("::TRZSZ:TRANSFER:")) {
+				return true
+			}
+			return o.relays > 0 && len(data) < 4096 && (bytes.Contains(data, []byte("#EXIT:")) || bytes.Contains(data, []byte("#FAIL:")) || bytes.Contains(data, []byte("#fail:")))
+		}
+		l.SealAtomic = o.relays > 0
 		return l
 	}
 	x.kbd = w.NewLink("kbd")
@@ -155,16 +162,28 @@ func newXferWorld(rc *runCtx, o *xferOpts) *xferWorld {
 func (x *xferWorld) upLast() *verifsim.Link   { return x.up[len(x.up)-1] }
 func (x *xferWorld) downLast() *verifsim.Link { return x.down[len(x.down)-1] }
 
-func (x *xferWorld) connector(proc string) func(int) net.Conn {
+// connector returns the tunnel connector of the party at position hop (0 = client, i = relay i):
+// it reaches ports on the next machine towards the server only.
+func (x *xferWorld) connector(proc string, hop int) func(int) net.Conn {
 	return func(port int) net.Conn {
-		c := x.w.Dial(port, fmt.Sprintf("tun.%s.%d", proc, port), func(l *verifsim.Link) {
+		next := x.server
+		if hop < len(x.relayP) {
+			next = x.relayP[hop]
+		}
+		c := x.w.DialHost(next, port, fmt.Sprintf("tun.%s.%d", proc, port), func(l *verifsim.Link) {
 			x.o.profile.apply(l)
 			if x.o.tunnelFast && l.LatMax > 100*time.Millisecond {
 				l.LatMax = 100 * time.Millisecond
 			}
 			l.Record = !x.o.noRecord
-			// the greeting is a single tiny TCP segment
-			l.Atomic = func(data []byte) bool { return bytes.Contains(data, []byte("::TRZSZ::")) }
+			// the greeting is a single tiny TCP segment; with relays, end-of-transfer markers are scanned per read
+			l.Atomic = func(data []byte) bool {
+				if bytes.Contains(data, []byte("::TRZSZ::")) {
+					return true
+				}
+				return x.o.relays > 0 && len(data) < 4096 && (bytes.Contains(data, []byte("#EXIT:")) || bytes.Contains(data, []byte("#FAIL:")) || bytes.Contains(data, []byte("#fail:")))
+			}
+			l.SealAtomic = x.o.relays > 0
 		})
 		if c == nil {
 			return nil
@@ -246,7 +265,7 @@ func (x *xferWorld) start() {
 		w.Go("relay.main", p, func() {
 			r := NewTrzszRelay(x.up[i], x.down[i], x.up[i+1], x.down[i+1], TrzszOptions{})
 			if o.tunnel {
-				r.SetTunnelConnector(x.connector(p.Name))
+				r.SetTunnelConnector(x.connector(p.Name, i+1))
 			}
 			x.relay = append(x.relay, r)
 		})
@@ -260,7 +279,7 @@ func (x *xferWorld) start() {
 		fo.TerminalColumns = o.cols
 		x.filter = NewTrzszFilter(x.kbd, x.term, x.up[0], x.down[0], fo)
 		if o.tunnel {
-			x.filter.SetTunnelConnector(x.connector("client"))
+			x.filter.SetTunnelConnector(x.connector("client", 0))
 		}
 		if o.upload {
 			switch o.uploadVia {
@@ -283,6 +302,10 @@ func (x *xferWorld) start() {
 			}
 		} else {
 			x.filter.SetDefaultDownloadPath(o.dstDir)
+		}
+		// every relay on the path is up (and has its connector) before the user types the command
+		for i := 0; i < 1000 && len(x.relay) < o.relays; i++ {
+			verifsim.Sleep(time.Millisecond)
 		}
 		x.clientReady = true
 		// the "user" now types the command: the server process starts
@@ -368,6 +391,8 @@ func (x *xferWorld) nextTransfer(o *xferOpts) {
 	x.endAt = 0
 	x.uploadDone, x.uploadErr, x.uploadErrImm = false, nil, nil
 	x.startAt = x.w.Now()
+	// whatever was still on its way to the previous server process went to the shell
+	x.upLast().Drain()
 	x.prepareServer()
 	x.w.Go("client.next", x.client, func() {
 		if o.upload {
